@@ -6,6 +6,7 @@ Docstrings and line comments: all strings up to length 3 over a 12-character alp
 from __future__ import annotations
 
 import ast
+import copy
 import itertools
 import re
 
@@ -62,9 +63,45 @@ def texts(n):
             yield s
 
 
+def _docs_blanked(tree):
+    """(dump with docstring-position multi-line constants replaced by a marker, [(value, statement column)] in walk order)"""
+    tree = copy.deepcopy(tree)
+    docs = []
+    for n in ast.walk(tree):
+        if isinstance(n, ast.Expr) and isinstance(n.value, ast.Constant) and isinstance(n.value.value, str) and '\n' in n.value.value:
+            docs.append((n.value.value, n.col_offset))
+            n.value.value = '<DOC>'
+    return _CTXRE.sub('ctx=Load()', ast.dump(tree)), docs
+
+
+def xcompare(orig, got):
+    """Round trip that ends where it started: everything, including string values, must be equal. Tolerated for docstring-position
+    strings only (documented line-wise docstring re-indentation: empty lines are never indented, a line cannot be dedented by more
+    than it has): a whitespace-only line may come back shorter, a line indented less than its statement may come back with other
+    leading whitespace. A line that comes back *longer*, or any other change, is a violation. Returns None or a description."""
+    d0, docs0 = _docs_blanked(orig)
+    d1, docs1 = _docs_blanked(got)
+    if d0 != d1:
+        return O.first_diff(d1, d0)
+    for (v0, col), (v1, _) in zip(docs0, docs1):
+        l0, l1 = v0.split('\n'), v1.split('\n')
+        if len(l0) != len(l1) or l0[0] != l1[0]:
+            return f'docstring {v1!r} != {v0!r}'
+        for a, b in zip(l0[1:], l1[1:]):
+            if a == b:
+                continue
+            if not a.strip() and not b.strip() and len(b) <= len(a):
+                continue
+            if a.lstrip(' \t') == b.lstrip(' \t') and len(a) - len(a.lstrip(' \t')) < col:
+                continue
+            return f'docstring line {b!r} != {a!r} in {v1!r} (was {v0!r})'
+    return None
+
+
 def roundtrip(fst, pi, src, what, form, reps, res):
     path = what[1]
     tree = ast.parse(src)
+    exact = not form.endswith('ast')  # pure-AST code carries no layout: its docstrings are re-indented on the way in
     want = sdump(tree)
     if what[0] == 'node':
         label = O.path_str(path)
@@ -134,6 +171,10 @@ def roundtrip(fst, pi, src, what, form, reps, res):
     if got != want:
         res.fail(cid, 'roundtrip-changed-structure', f'src={src!r}\nnow={root.src!r}\n' + O.first_diff(got, want), params, rep)
         return
+    diff = xcompare(tree, ast.parse(root.src)) if exact else None
+    if diff:
+        res.fail(cid, 'roundtrip-changed-string-value', f'src={src!r}\nnow={root.src!r}\n{diff}', params, rep)
+        return
     res.state(root.src)
     res.nontriv(pi, label, form, reps)
     res.outcomes['ok'] += 1
@@ -182,7 +223,9 @@ def own_src_check(fst, pi, src, res):
                 ok = False
                 break
             res.traces += 1
-            exact = kw.get('docstr') is False  # no docstring re-indentation requested: string values must be untouched
+            # no docstring re-indentation requested, or the node is not a statement (only Expr statements are docstrings):
+            # string values must be untouched
+            exact = kw.get('docstr') is False or not isinstance(child, (ast.stmt, ast.excepthandler, ast.match_case))
             g = _CTXRE.sub('ctx=Load()', ast.dump(back.a)) if exact else sdump(back.a)
             w = _CTXRE.sub('ctx=Load()', ast.dump(child)) if exact else sdump(child)
             if g != w:
@@ -298,6 +341,9 @@ EXTRA = [  # positions whose content needs its parentheses; nested multi-line do
     "async def f():\n    (await z)[0]\n    (await g())(1)\n    (yield)\n    x = (yield y) + 1",
     "class K:\n    def m(self):\n        '''doc\n        more\n          indented'''\n        return 1\n    def n(self):\n        s = '''a\n        b'''\n        '''not doc\n        c'''",
     "def f(a=(lambda: 0), *b, c=(x if y else z)):\n    return (a, b), (c)\nf((u for u in v), w)",
+    # whitespace-only lines that carry indentation: inside docstrings / strings and between statements
+    "class C:\n    def f(self):\n        \"\"\"Summary.\n        \n        Details.\n    \n            deep\n        \"\"\"\n        return 1\n    \n    def g(self):\n        s = '''a\n        \n  b'''\n        \n        return s\n",
+    "if a:\n    '''d\n    \n    e'''\n    \n    x = 1\n  \n    y = 2\n\t\nz = 3",
 ]
 PROGS8 = list(PROGRAMS) + EXTRA
 for _p in EXTRA:
